@@ -240,8 +240,8 @@ def main():
                           "three clauses (whether the bundle succeeded or was rolled back); "
                           "non-trivial = the bundle changed the document or raised")
   from checks import C02
-  C02.tune_explore()
-  explore.explore(rep, "checks.C08", "C08Monitor", n_quick=128, budget_quick_s=30)
+  C02.tune_explore(4)
+  explore.explore(rep, "checks.C08", "C08Monitor", n_quick=112, budget_quick_s=22)
   return rep.finish()
 
 
